@@ -25,7 +25,7 @@ import (
 // a blocked call is an observation and not a hang of the driver); Adv/Read/ReadAll/Cancel are
 // actions of the environment.
 type c10Op struct {
-	Op string `json:"op"`          // sub | batch | adv | read | readall | cancel | close
+	Op string `json:"op"`          // sub | batch | adv | advbatch | read | readall | cancel | close
 	P  bool   `json:"p,omitempty"` // sub: prompt reader (true) or reader on command (false)
 	K  int    `json:"k,omitempty"` // batch: key
 	D  int    `json:"d,omitempty"` // adv: milliseconds
@@ -199,7 +199,7 @@ func c10Validate(in c10Input) error {
 		case "sub":
 			nsub++
 		case "batch":
-		case "adv":
+		case "adv", "advbatch":
 			if op.D < 1 || op.D > 100000 {
 				return fmt.Errorf("step %d: adv out of range", s)
 			}
@@ -270,6 +270,13 @@ func c10Exec(in c10Input) ([]c10Ev, error) {
 			call(step, func() { r.b.Batch(k, v) })
 		case "adv":
 			r.clk.Step(time.Duration(op.D) * time.Millisecond)
+		case "advbatch":
+			// the clock step and the Batch call back to back on the driver goroutine, WITHOUT
+			// waiting for quiescence in between: a Batch landing between the expiry of the key's
+			// timer and the processor popping the entry (either may win; both are legitimate)
+			r.clk.Step(time.Duration(op.D) * time.Millisecond)
+			r.b.Batch(op.K, step)
+			r.rec(evDone, 0, step)
 		case "read":
 			r.subs[op.I].cmd <- 1
 		case "readall":
